@@ -14,6 +14,9 @@ for name in names:
     pid = meta["property"]
     subprocess.run("git -C /repo checkout -- . && git -C /repo apply %s/patch.diff" % d, shell=True, check=True)
     res = {}
+    # evidence files describe the unchanged tree: keep them out of the way while a seeded change is applied
+    ev_dir = os.path.join(ROOT, "evidence")
+    saved_ev = {f: open(os.path.join(ev_dir, f)).read() for f in os.listdir(ev_dir) if f.endswith(".json")}
     try:
         for p in (props if all_checks else [pid]):
             t0 = time.time()
@@ -25,6 +28,8 @@ for name in names:
             print(name, p, pr.returncode, "concrete" if res[p]["with_failing_input"] else ("no-input" if v else "-"), flush=True)
     finally:
         subprocess.run("git -C /repo checkout -- .", shell=True)
+        for f, txt in saved_ev.items():
+            open(os.path.join(ev_dir, f), "w").write(txt)
     out = os.path.join(d, "detection.json")
     old = json.load(open(out)) if os.path.exists(out) else {}
     old.update(res)
